@@ -40,6 +40,7 @@ type HOp struct {
 	Allow string
 	Max   time.Duration
 	Msg   string
+	Dup   bool // the same target is named N times in the command
 	raw   string
 }
 
@@ -67,6 +68,8 @@ func parseOp(s string) HOp {
 			op.Paths = strings.Split(v, ",")
 		case "n":
 			op.N, _ = strconv.Atoi(v)
+		case "dup":
+			op.Dup = v == "1"
 		case "o":
 			op.Opt = v
 		case "bad":
@@ -178,6 +181,10 @@ type HWorld struct {
 func (h *HWorld) targetNames(op HOp) []string {
 	var res []string
 	for i := 0; i < op.N; i++ {
+		if op.Dup {
+			res = append(res, fmt.Sprintf("%sg%da:80", op.Svc, h.opNo))
+			continue
+		}
 		res = append(res, fmt.Sprintf("%sg%d%c:80", op.Svc, h.opNo, 'a'+i))
 	}
 	return res
